@@ -479,6 +479,13 @@ func init() {
 func keyChain(v ssa.Value, d int) string {
 	var names []string
 	for i := 0; i < d && v != nil; i++ {
+		// a value handed back in a helper's result struct (`urls, err := r.resolveEndpointURLs(cfg)` … `urls.endpointString`)
+		if theCtx != nil {
+			if alts := helperStructField(theCtx, v); len(alts) == 1 {
+				v = alts[0]
+				continue
+			}
+		}
 		switch x := v.(type) {
 		case *ssa.Call:
 			ci := describeCall(&x.Call)
